@@ -488,14 +488,19 @@ def run_trainer_child(plan, root, key):
     quiet_lightning()
     out_dir = os.path.join(root, "out")
     chunks_dir = os.path.join(root, "chunks") if plan["explicit_chunks"] else None
-    roots = [out_dir] + ([chunks_dir] if chunks_dir else [])
+    # output roots: the checkpoint dir, the chunk dir and the working directory (the low-memory fallback writes
+    # ./train_chunks there); the harness's own scratch (tmp/, the user's YAML) is kept outside them
+    work_dir = os.path.join(root, "cwd")
+    os.makedirs(work_dir, exist_ok=True)
+    roots = [out_dir, work_dir] + ([chunks_dir] if chunks_dir else [])
     tmpdir = os.path.join(root, "tmp") if plan["tmp_same_fs"] else "/tmp"
     os.makedirs(tmpdir, exist_ok=True)
     os.environ["TMPDIR"] = tmpdir
     import tempfile
 
     tempfile.tempdir = tmpdir
-    os.chdir(root)
+    os.makedirs(os.path.join(root, "cwd"), exist_ok=True)
+    os.chdir(os.path.join(root, "cwd"))
     needles = needles_for(key)
     from simcore import shims
 
@@ -546,9 +551,22 @@ def run_trainer_child(plan, root, key):
 
     vt = VirtualTime()
     saved = (mt.wandb, mt.WandbLogger, sio.load_slp, lm.time)
+    saved_psutil = mt.psutil
     mt.wandb = fake
     mt.WandbLogger = make_fake_logger_class(fake)
     lm.time = vt
+    if plan.get("low_memory"):
+        # memory pressure as a fault: the machine reports (almost) no available RAM when the loaders are built
+        class _VM:
+            available = 1024
+
+        class _FakePsutil:
+            @staticmethod
+            def virtual_memory():
+                res["fault_fired_low_memory"] = True
+                return _VM()
+
+        mt.psutil = _FakePsutil
     if labels is not None:
         sio.load_slp = lambda path, **kw: labels
     trainer = None
@@ -573,6 +591,7 @@ def run_trainer_child(plan, root, key):
     finally:
         mon.stop()
         mt.wandb, mt.WandbLogger, sio.load_slp, lm.time = saved
+        mt.psutil = saved_psutil
     inspect("exit", full=True)
     # ---- artifact facts (evaluated by the parent oracle) -------------------
     files = sorted(p.replace(root, "") for p in tree_state(roots))
